@@ -1,7 +1,117 @@
-import SmtpV.Model.Server
-import SmtpV.Spec.Monitors
+import SmtpV.Proofs.ServerHandlers
+import SmtpV.Proofs.Projections
 /-!
-# C03 — backend callbacks follow RFC 5321 transaction order (work in progress: theorems follow)
+# C03 — callbacks follow transaction order; envelopes never leak
+# C08 — each session is logged out exactly once; nothing runs after the end
+
+Both are statements about the backend-visible trace of a whole connection.  The server model
+(`Server.serve`: greeting, command loop over an arbitrary octet stream in arbitrary segments, every handler,
+panic recovery, deferred Close; tied to conn.go/server.go by the `conv` correspondence) is proved to produce only
+traces the ordering monitor accepts — for EVERY input, EVERY backend script and EVERY configuration — and the
+monitors that judge the implementation's traces (`Mon.check3`, `Mon.check8`) are proved to be projections of it.
 -/
 namespace SmtpV.Props.C03
+open SmtpV SmtpV.Spec SmtpV.Spec.Order SmtpV.Spec.Mon SmtpV.Server
+
+/-- a connection that has not done anything yet: no events, no session, nothing of an envelope -/
+structure Fresh (s : S) : Prop where
+  evs : s.evs = []
+  session : s.c.session = none
+  closed : s.c.closed = false
+  nextSess : s.c.nextSess = 0
+  fromReceived : s.c.fromReceived = false
+  bdat : s.c.bdat = none
+  recipients : s.c.recipients = []
+  didAuth : s.c.didAuth = false
+
+theorem fresh_good (s : S) (h : Fresh s) : Good (abs s.c) s := by
+  refine ⟨by simp [h.evs, Order.run], ?_⟩
+  exact ⟨fun hc => by simp [h.closed] at hc, fun _ hf => by simp [h.fromReceived] at hf,
+    fun hb => by simp [h.bdat] at hb, fun _ _ => ⟨h.recipients, h.didAuth⟩⟩
+
+/-- **order_accepts_every_connection.**  Whatever octets arrive in whatever segments, whatever the backend answers
+    (refusals, errors, panics, early returns) and whatever the configuration: the complete trace of the connection is
+    accepted by the ordering monitor, the connection ends closed and nobody is left logged in. -/
+theorem order_accepts_every_connection (s : S) (h : Fresh s) :
+    Order.check s.cfg (abs s.c) (serve s).evs.reverse = [] := by
+  obtain ⟨hg, hcfg, hcl, hss⟩ := serve_good (fresh_good s h)
+  unfold Order.check
+  rw [← hcfg, hg.tr]
+  simp [Order.fin, abs, hcl, hss]
+
+/-- the initial abstraction of a fresh connection: C03's and C08's monitors start from their initial states -/
+theorem fresh_R3 (s : S) (h : Fresh s) : R3 (abs s.c) {} := by
+  unfold R3; simp [abs, h.session]
+
+theorem fresh_p8 (s : S) (h : Fresh s) : p8 (abs s.c) = {} := by
+  simp [p8, abs, h.session, h.closed, h.nextSess]
+
+/-- **C03_order.**  On every connection the backend sees Mail only in a session created by a greeting, Rcpt only
+    after an accepted Mail of the same transaction and within the recipient limit, Data only after an accepted Rcpt
+    and once per transaction, and nothing of a transaction after its transfer began until it was reset — the very
+    judge applied to the implementation's traces accepts every trace of the model. -/
+theorem C03_order (s : S) (h : Fresh s) : Mon.check3 s.cfg (serve s).evs.reverse = [] := by
+  obtain ⟨hg, hcfg, _, _⟩ := serve_good (fresh_good s h)
+  unfold Mon.check3
+  exact sim3 s.cfg _ _ _ {} (by rw [← hcfg]; exact hg.tr) (fresh_R3 s h)
+
+/-- **C08_lifecycle.**  Every session is logged out exactly once, no callback or write happens on a session after its
+    Logout or after the connection was closed, the connection is closed exactly once and at the end nobody is logged in. -/
+theorem C08_lifecycle (s : S) (h : Fresh s) : Mon.check8 (serve s).evs.reverse = [] := by
+  obtain ⟨hg, hcfg, hcl, hss⟩ := serve_good (fresh_good s h)
+  unfold Mon.check8
+  have := sim8 s.cfg (serve s).evs.reverse (abs s.c) (abs (serve s).c) (by rw [← hcfg]; exact hg.tr)
+  rw [fresh_p8 s h] at this
+  rw [this]
+  simp [fin8, p8, abs, hcl, hss]
+
+/-! ### the trace the driver prints (and the harness records) has no `cmd` / `tlsStart` events: dropping them changes
+nothing for these two judges -/
+
+def visible (e : Ev) : Bool := match e with | .cmd _ => false | .tlsStart _ => false | _ => true
+
+theorem runMon_filter {σ : Type} (step : σ → Ev → Except String σ) (fin : σ → List String)
+    (hid : ∀ m e, visible e = false → step m e = .ok m ∨ ∃ r, step m e = .error r) :
+    ∀ (evs : List Ev) (m : σ), runMon step fin m evs = [] → runMon step fin m (evs.filter visible) = [] := by
+  intro evs
+  induction evs with
+  | nil => intro m h; exact h
+  | cons e t ih =>
+    intro m h
+    simp only [runMon] at h
+    by_cases hv : visible e = true
+    · simp only [List.filter_cons, hv, if_true, runMon]
+      cases hs : step m e with
+      | error r => simp [hs] at h
+      | ok m' => simp only [hs] at h ⊢; exact ih m' h
+    · have hv' : visible e = false := by simpa using hv
+      simp only [List.filter_cons, hv', Bool.false_eq_true, if_false]
+      rcases hid m e hv' with hok | ⟨r, herr⟩
+      · rw [hok] at h; exact ih m h
+      · rw [herr] at h; simp at h
+
+theorem C03_order_visible (s : S) (h : Fresh s) : Mon.check3 s.cfg ((serve s).evs.reverse.filter visible) = [] := by
+  unfold Mon.check3
+  apply runMon_filter
+  · intro m e hv
+    cases e <;> simp [visible] at hv <;> exact Or.inl rfl
+  · exact C03_order s h
+
+theorem C08_lifecycle_visible (s : S) (h : Fresh s) : Mon.check8 ((serve s).evs.reverse.filter visible) = [] := by
+  unfold Mon.check8
+  apply runMon_filter
+  · intro m e hv
+    cases e <;> simp [visible] at hv
+    all_goals
+      simp only [step8]
+      split
+      · exact Or.inr ⟨_, rfl⟩
+      · exact Or.inl rfl
+  · exact C08_lifecycle s h
+
+/-! ### non-vacuity: a fresh connection exists for every configuration, input and backend -/
+
+example (cfg : Cfg) (w : Wire.W) (be : Backend) : Fresh { cfg := cfg, w := w, be := be } :=
+  ⟨rfl, rfl, rfl, rfl, rfl, rfl, rfl, rfl⟩
+
 end SmtpV.Props.C03
